@@ -4,7 +4,7 @@ from props.common import *  # noqa: F401,F403
 
 from contracts import rowsearch  # noqa: E402
 
-FUNCTIONS = SEARCH_FUNCS + DESIGN_FUNCS + [f"{S}:RowWiseModifiedBisectionSearch.calculate_excess"] + rowsearch.ROWSEARCH
+FUNCTIONS = SEARCH_FUNCS + DESIGN_FUNCS + [f"{S}:RowWiseModifiedBisectionSearch.calculate_excess", f"{G}:GHE.size#hourly"] + rowsearch.ROWSEARCH
 NATIVE_FUNCTIONS = SEARCH_NATIVES
 LEVEL = "proof"
 
